@@ -84,6 +84,13 @@ where
     }
 }
 
+#[cfg(bma400_verif)]
+impl AutoLpConfig {
+    pub(crate) fn verif_visit(&mut self, f: &mut dyn FnMut(u8, u8) -> Option<u8>) {
+        verif_visit_fields!(self, f, auto_low_pow0: AutoLowPow0, auto_low_pow1: AutoLowPow1);
+    }
+}
+
 #[cfg(test)]
 mod tests {
     use super::*;
